@@ -210,6 +210,13 @@ fn check_linear(acc: &mut Acc, g: bool, base: u64, xs: &[f32]) {
     }
 }
 
+fn f32s_json(it: &[f32]) -> Value {
+    json!(it.iter().map(|x| x.to_bits()).collect::<Vec<_>>())
+}
+fn f32s_from(v: &Value) -> Vec<f32> {
+    v.as_array().unwrap().iter().map(|x| f32::from_bits(x.as_u64().unwrap() as u32)).collect()
+}
+
 pub fn run(tier: Tier) -> Report {
     let mut rep = Report::new("C03");
     let dom = Dom::for_tier(tier);
@@ -221,6 +228,7 @@ pub fn run(tier: Tier) -> Report {
             let acc = par_chunks_varied(total, chunk, |acc, lo, hi| {
                 let xs = dom.slice(lo, hi);
                 check_curve(acc, t, g, base + lo, &xs);
+                crate::img::refine_violations(acc, base + lo, &xs, 3, &|a, it| check_curve(a, t, g, 0, it), &f32s_json);
                 if lo == 0 && t == TC::SRGB {
                     acc.sample(json!({"tc":"SRGB","dir":dir_name(g),"x": format!("{:e}", xs[xs.len()/2]), "definition": if g {tc_to_gamma(t, xs[xs.len()/2] as f64)} else {tc_to_linear(t, xs[xs.len()/2] as f64)}}));
                 }
@@ -229,11 +237,19 @@ pub fn run(tier: Tier) -> Report {
             base += total;
         }
         for &t in ALIASES.iter() {
-            let acc = par_chunks_varied(total, chunk, |acc, lo, hi| check_alias(acc, t, g, base + lo, &dom.slice(lo, hi)));
+            let acc = par_chunks_varied(total, chunk, |acc, lo, hi| {
+                let xs = dom.slice(lo, hi);
+                check_alias(acc, t, g, base + lo, &xs);
+                crate::img::refine_violations(acc, base + lo, &xs, 3, &|a, it| check_alias(a, t, g, 0, it), &f32s_json);
+            });
             rep.acc.merge(acc);
             base += total;
         }
-        let acc = par_chunks_varied(total, chunk, |acc, lo, hi| check_linear(acc, g, base + lo, &dom.slice(lo, hi)));
+        let acc = par_chunks_varied(total, chunk, |acc, lo, hi| {
+            let xs = dom.slice(lo, hi);
+            check_linear(acc, g, base + lo, &xs);
+            crate::img::refine_violations(acc, base + lo, &xs, 3, &|a, it| check_linear(a, g, 0, it), &f32s_json);
+        });
         rep.acc.merge(acc);
         base += total;
     }
@@ -254,11 +270,13 @@ pub fn replay(case: &Value) -> (bool, String) {
     let g = case["to_gamma"].as_bool().unwrap();
     let x = f32::from_bits(case["x"].as_u64().unwrap() as u32);
     let mut acc = Acc::default();
-    match case["kind"].as_str().unwrap() {
-        "c03" => check_curve(&mut acc, tc_from_name(case["tc"].as_str().unwrap()), g, 0, &[x]),
-        "c03alias" => check_alias(&mut acc, tc_from_name(case["tc"].as_str().unwrap()), g, 0, &[x]),
-        _ => check_linear(&mut acc, g, 0, &[x]),
-    }
+    // three values make one pixel: the violating value is replayed in the slot it had
+    let (items, shape) = crate::img::replay_items(case, vec![x, x, x], &f32s_from);
+    crate::img::with_shape(shape, || match case["kind"].as_str().unwrap() {
+        "c03" => check_curve(&mut acc, tc_from_name(case["tc"].as_str().unwrap()), g, 0, &items),
+        "c03alias" => check_alias(&mut acc, tc_from_name(case["tc"].as_str().unwrap()), g, 0, &items),
+        _ => check_linear(&mut acc, g, 0, &items),
+    });
     match acc.viols.values().next() {
         Some(v) => (true, format!("{} :: {}", v.key, v.detail)),
         None => (false, "ok".into()),
@@ -312,6 +330,7 @@ pub fn run_c10(tier: Tier) -> Report {
         let acc = par_chunks_varied(total, 3 << 14, |acc, lo, hi| {
             let xs = dom.slice(lo, hi);
             check_rt(acc, t, base + lo, &xs);
+            crate::img::refine_violations(acc, base + lo, &xs, 3, &|a, it| check_rt(a, t, 0, it), &f32s_json);
             if lo == 0 && t == TC::HybridLogGamma {
                 acc.sample(json!({"tc":"HybridLogGamma","x": format!("{:e}", xs[xs.len()/3]), "note":"Rgb{t} -> LinearRgb -> Rgb{t}"}));
             }
@@ -329,7 +348,8 @@ pub fn run_c10(tier: Tier) -> Report {
 pub fn replay_c10(case: &Value) -> (bool, String) {
     let x = f32::from_bits(case["x"].as_u64().unwrap() as u32);
     let mut acc = Acc::default();
-    check_rt(&mut acc, tc_from_name(case["tc"].as_str().unwrap()), 0, &[x]);
+    let (items, shape) = crate::img::replay_items(case, vec![x, x, x], &f32s_from);
+    crate::img::with_shape(shape, || check_rt(&mut acc, tc_from_name(case["tc"].as_str().unwrap()), 0, &items));
     match acc.viols.values().next() {
         Some(v) => (true, format!("{} :: {}", v.key, v.detail)),
         None => (false, "ok".into()),
